@@ -16,6 +16,8 @@ pub mod c07;
 #[cfg(kani)]
 pub mod c06;
 #[cfg(kani)]
+pub mod c32;
+#[cfg(kani)]
 pub mod c25;
 #[cfg(kani)]
 pub mod c03;
